@@ -85,3 +85,28 @@ Definition fixed_handoff_table : table := mkTable [
 ] [
   mkCloser "ret:owner(minibus.listener.ch.msg)" [] "internal/minibus/bus.go:listener.send" "internal/minibus/bus.go:105"
 ].
+
+(* ---- borrowed parameters captured by a goroutine ----
+   A parameter through which the caller lends a message (any / proto.Message / *pkg.Msg) and which a
+   goroutine started by the function captures: location "<pkg>.<Func>.<param>.*".  Every use inside the
+   goroutine is a row (W: what is done with the object there is not followed), and the closing brace of
+   the function is the owner's next write.  They are ordered only if the function waits for the goroutine.
+   lend_table: the rows of a unary Invoke whose handler goroutine reads args directly (self-mutation M4);
+   lend_waited_table: the same with `var wg sync.WaitGroup; wg.Add(1); go func(){ defer wg.Done() ...}(); wg.Wait()`. *)
+Definition lend_table : table := mkTable [
+  mkSite "wrap.wrapper.Invoke.args.*" KW [] [BPO "end:wrap.wrapper.Invoke@62"] ["go:wrap.wrapper.Invoke@62"] false "pkg/wrap/wrap.go:wrapper.Invoke" "pkg/wrap/wrap.go:65";
+  mkSite "wrap.wrapper.Invoke.args.*" KW [] [BPO "ret:wrap.wrapper.Invoke"] [] false "pkg/wrap/wrap.go:wrapper.Invoke" "pkg/wrap/wrap.go:86"
+] [
+  mkCloser "go:wrap.wrapper.Invoke@62" [] "pkg/wrap/wrap.go:wrapper.Invoke" "pkg/wrap/wrap.go:62";
+  mkCloser "end:wrap.wrapper.Invoke@62" [] "pkg/wrap/wrap.go:wrapper.Invoke" "pkg/wrap/wrap.go:72";
+  mkCloser "ret:wrap.wrapper.Invoke" [] "pkg/wrap/wrap.go:wrapper.Invoke" "pkg/wrap/wrap.go:86"
+].
+Definition lend_waited_table : table := mkTable [
+  mkSite "wrap.wrapper.Invoke.args.*" KW [] [BPO "end:wrap.wrapper.Invoke@62"; BPO "wg:wg@wrap.wrapper.Invoke@62"] ["go:wrap.wrapper.Invoke@62"] false "pkg/wrap/wrap.go:wrapper.Invoke" "pkg/wrap/wrap.go:65";
+  mkSite "wrap.wrapper.Invoke.args.*" KW [] [BPO "ret:wrap.wrapper.Invoke"] ["wg:wg@wrap.wrapper.Invoke@62"] false "pkg/wrap/wrap.go:wrapper.Invoke" "pkg/wrap/wrap.go:88"
+] [
+  mkCloser "go:wrap.wrapper.Invoke@62" [] "pkg/wrap/wrap.go:wrapper.Invoke" "pkg/wrap/wrap.go:62";
+  mkCloser "end:wrap.wrapper.Invoke@62" [] "pkg/wrap/wrap.go:wrapper.Invoke" "pkg/wrap/wrap.go:72";
+  mkCloser "wg:wg@wrap.wrapper.Invoke@62" [] "pkg/wrap/wrap.go:wrapper.Invoke" "pkg/wrap/wrap.go:63";
+  mkCloser "ret:wrap.wrapper.Invoke" [] "pkg/wrap/wrap.go:wrapper.Invoke" "pkg/wrap/wrap.go:88"
+].
